@@ -211,7 +211,7 @@ class C14(Check):
                    'del_map is not part of the property (the quantifier does not list it) and is only exercised through group_by in (b)']
     ANCHORS = ['rxsci/state/memory_store.py', 'rxsci/state/store.py']
     REQUIRED_TAGS = ['dtype=int', 'dtype=uint', 'dtype=float', 'dtype=bool', 'dtype=obj', 'dtype=mapper', 'default', 'no-default',
-                     'direct', 'manager', 'sparse', 'descending', 'pipeline', 'wide', 'stepwise-walk']
+                     'direct', 'manager', 'sparse', 'descending', 'pipeline', 'wide', 'stepwise-walk', 'type-names-built-at-run-time']
     REQUIRED_OBSERVED = ['walk_steps', 'untouched_slots_checked_in_walks', 'store.add_key', 'store.set', 'store.get', 'store.del_key', 'store.iterate',
                          'store.add_map', 'store.get_map', 'store.iterate_map', 'slot_rereads']
 
@@ -239,7 +239,8 @@ class C14(Check):
             if dom == 'wide' and k % 4:
                 dom = 'sparse'          # the wide histories are long: one in four of their turn
             yield {'kind': 'history', 'states': states, 'via': 'direct' if (nstates == 1 and k % 2) else 'manager',
-                   'domain': dom, 'ops': gen_history(rng, states, rng.choice([50, 120, 400]) if dom != 'wide' else 900, dom)}
+                   'domain': dom, 'ops': gen_history(rng, states, rng.choice([50, 120, 400]) if dom != 'wide' else 900, dom),
+                   'dtype_literals': bool(k % 2)}
 
     # ------------------------------------------------------------------
     def evaluate(self, case):
@@ -281,12 +282,21 @@ class C14(Check):
 
     def _eval_history(self, case, out):
         states = case['states']
+        built = not case.get('dtype_literals', True)
+        if built:
+            out.tags.append('type-names-built-at-run-time')
+
+        def DT(name):
+            d = DTYPES[name]
+            # a type NAME that is equal to the literal without being the same (interned) object - read from a
+            # configuration file, lower-cased, concatenated
+            return ''.join(list(d)) if (built and isinstance(d, str)) else d
         out.tags += [case['via'], case['domain']]
         for st in states:
             out.tags.append('dtype=' + st['dtype'])
             out.tags.append('default' if st['default'] is not None else 'no-default')
         if case['via'] == 'direct':
-            stores = [ShadowMemoryStore(name='s0', data_type=DTYPES[states[0]['dtype']], default_value=states[0]['default'])]
+            stores = [ShadowMemoryStore(name='s0', data_type=DT(states[0]['dtype']), default_value=states[0]['default'])]
             call = lambda s, op, *a: getattr(stores[s], op)(*a)                     # noqa: E731
         else:
             from rxsci.state.state_topology import StateTopology
@@ -296,7 +306,7 @@ class C14(Check):
                 if st['dtype'] == 'mapper':
                     ids.append(topo.create_mapper('m%d' % j))
                 else:
-                    ids.append(topo.create_state('s%d' % j, DTYPES[st['dtype']], st['default']))
+                    ids.append(topo.create_state('s%d' % j, DT(st['dtype']), st['default']))
             mgr = rs.state.StoreManager(store_factory=ShadowMemoryStore)
             mgr.set_topology(topo)
             store = mgr.get_store()
